@@ -128,6 +128,9 @@ reg = {
         "cow": {"overlay": "units/cow.ovl", "canaries": ["canary_cow"],
                 "helpers": ["drop", "get_page_number", "new", "child_page", "child_checksum", "count_children", "write_child_page", "memory_mut",
                             "uncommitted", "get_page_mut", "push_all", "replace_child", "build", "to_single_child", "required_bytes", "into_parts"]},
+        # the root update after a deletion, and MutateHelper::delete_key
+        "rootupd": {"overlay": "units/rootupd.ovl", "canaries": ["canary_rootupd"],
+                    "helpers": ["get_page_number", "get_page", "new", "num_pairs", "build", "push_child", "push_key", "push_all_except_deleted", "delete_helper"]},
         "types_sep": {"overlay": "units/types_sep.ovl", "canaries": ["canary_types_sep"], "helpers": ["common_prefix_len"]},
         # the page-level checksum walk over an abstract page store
         "merkle": {"overlay": "units/merkle.ovl", "canaries": ["canary_merkle"],
@@ -251,10 +254,11 @@ P["C12"] = {
     "not_decided": "every byte position of every image; that the catalog range iterator and AllPageNumbersBtreeIter really yield every entry / page (B-tree cursors); that leaf_checksum/branch_checksum hash every byte an accessor can return (bounded C10-P3 only); XXH3 being XXH3",
 }
 P["C10"] = {
-    "level": "other",
+    "level": "proof",
     "verus": [{"unit": "merkle", "functions": ["RawBtree::verify_checksum", "RawBtree::verify_checksum_helper"]},
               {"unit": "cow", "functions": ["MutateHelper::replace_branch_child", "MutateHelper::finalize_branch_builder"]},
-              {"unit": "search", "functions": ["BranchAccessor::child_for_key", "LeafAccessor::position"]}],
+              {"unit": "search", "functions": ["BranchAccessor::child_for_key", "LeafAccessor::position"]},
+              {"unit": "rootupd", "functions": ["MutateHelper::finish_deletion", "MutateHelper::delete_key"]}],
     "kani": [K["C10-F1"], K["C10-F2"], K["C10-F3"], K["C10-F4"], K["C10-F6a"], alias("C11-R3", "C10-F6b"), alias("C06-K2", "C10-F6c"),
              alias("C07-K1s", "C10-F6d"), alias("C04-L1f", "C10-P1f"), alias("C04-L1v", "C10-P1v")],
     "assumptions": ["K1 (cow unit): a branch page is the sequence of its (child page, checksum) pointers; BranchBuilder::build allocates a fresh page of this transaction holding exactly the pointers pushed (built_children, a function of the page number); get_page_mut records what is written through the handle against the page; the separator keys are not modelled"],
@@ -266,10 +270,11 @@ P["C04"] = {
     "level": "proof",
     "verus": [{"unit": "search", "functions": ["LeafAccessor::position", "LeafAccessor::find_key", "LeafAccessor::num_pairs", "BranchAccessor::child_for_key", "BranchAccessor::num_keys",
                                                "Direction::entry_in_range_core"]},
-              {"unit": "guardmut", "functions": ["AccessGuardMut::rebuild_leaf"]}],
+              {"unit": "guardmut", "functions": ["AccessGuardMut::rebuild_leaf"]},
+              {"unit": "rootupd", "functions": ["MutateHelper::finish_deletion", "MutateHelper::delete_key", "DeletedPairs::len", "BtreeHeader::new"]}],
     "kani": [K["C04-T1"], K["C04-L1f"], K["C04-L1v"], K["C04-L2"]],
-    "assumptions": ["G1 (guardmut unit): a leaf page is the sequence of pairs it holds (LeafAccessor reads it, LeafBuilder::build allocates a page holding exactly the pairs pushed), a branch page the log of child pointers written into it; the guard's root reference is held by value", "S1 (search unit): K::compare is a function of the two byte strings and a total order (reflexive, antisymmetric, transitive) - that it is the value order of each built-in key type is property C15; the n-th key / child of a page is an uninterpreted function of the page (key_unchecked, key, child_page are assumed to return it; the byte layout is checked by the bounded Kani harnesses C04-L1/L2); the keys of a page are strictly increasing (precondition `sorted`, property C10)"],
-    "explanation": "Kernel = every lookup, insert and range scan reaches its entry through two binary searches, verified on their REAL loops for every page size and every total order: LeafAccessor::position reports a match only at an entry whose key equals the query and otherwise returns the insertion point (all keys before it smaller, all keys from it on larger), find_key finds a key exactly when the page holds it; BranchAccessor::child_for_key picks the child whose key interval contains the query (all separators before it smaller than the query, the separator at it greater or equal); the REAL bound test of the mutable range cursor (entry_in_range) yields an entry only while its key is on the inner side of the bound parked by the other end (Included / Excluded / Unbounded, both directions). (G) the REAL page-rebuild path of AccessGuardMut::insert (get_mut / entry API, new value does not fit): the rebuilt leaf holds the old pairs with exactly this entry's value replaced, the pointer redirected to it is the parent's pointer at the position recorded for the parent (or the tree root), with a deferred checksum, and the old leaf is released. Plus the leaf page as a sorted array (bounded model checking of the real writer, reader and binary search against the sequence of pairs handed to the builder) and the complete split/merge threshold arithmetic.",
+    "assumptions": ["D1 (rootupd unit): the recursive descent (delete_helper) is an uninterpreted function of the root page and the key; a page built in this transaction is a function of its page number; push_all_except_deleted pushes the pairs of the leaf without the deleted ones; the helper's root / allocator references are held by value (rule RX drops the `*` of `*self.root`)", "G1 (guardmut unit): a leaf page is the sequence of pairs it holds (LeafAccessor reads it, LeafBuilder::build allocates a page holding exactly the pairs pushed), a branch page the log of child pointers written into it; the guard's root reference is held by value", "S1 (search unit): K::compare is a function of the two byte strings and a total order (reflexive, antisymmetric, transitive) - that it is the value order of each built-in key type is property C15; the n-th key / child of a page is an uninterpreted function of the page (key_unchecked, key, child_page are assumed to return it; the byte layout is checked by the bounded Kani harnesses C04-L1/L2); the keys of a page are strictly increasing (precondition `sorted`, property C10)"],
+    "explanation": "Kernel = every lookup, insert and range scan reaches its entry through two binary searches, verified on their REAL loops for every page size and every total order: LeafAccessor::position reports a match only at an entry whose key equals the query and otherwise returns the insertion point (all keys before it smaller, all keys from it on larger), find_key finds a key exactly when the page holds it; BranchAccessor::child_for_key picks the child whose key interval contains the query (all separators before it smaller than the query, the separator at it greater or equal); the REAL bound test of the mutable range cursor (entry_in_range) yields an entry only while its key is on the inner side of the bound parked by the other end (Included / Excluded / Unbounded, both directions). (D) the REAL MutateHelper::delete_key / finish_deletion: removing from an empty tree or a key that is absent leaves the root - and its checksum - untouched; removing a present key stores a root whose entry count is exactly one lower, naming the page the descent produced (DEFERRED checksum) or the untouched remaining child (its retained checksum), and no root at all when the tree was emptied; (G) the REAL page-rebuild path of AccessGuardMut::insert (get_mut / entry API, new value does not fit): the rebuilt leaf holds the old pairs with exactly this entry's value replaced, the pointer redirected to it is the parent's pointer at the position recorded for the parent (or the tree root), with a deferred checksum, and the old leaf is released. Plus the leaf page as a sorted array (bounded model checking of the real writer, reader and binary search against the sequence of pairs handed to the builder) and the complete split/merge threshold arithmetic.",
     "not_decided": "every tree operation of btree_mutator.rs: split, merge, rebalance, in-place leaf mutation (probed, too expensive), the cursor state machines around the verified bound test, multi-transaction histories",
 }
 P["C06"] = {
